@@ -100,8 +100,22 @@ _INV3 = [
     "count(//*[(count(outermost(*)), count(innermost(*)), name())[3] != name()])",
     "count(//*[(*, name())[last()] != name()])",
 ]
+_INV4 = [       # appended later (indexes above are kept for the replay files)
+    ("count(//*[(let $e := exists(*) return name(.)) != name()])", ('3.0', '3.1')),
+    ("count(//*[(let $e := /*, $n := name(.) return $n) != name()])", ('3.0', '3.1')),
+    ("count(//*[(let $f := function($p, $q) { $q } return $f(exists(*), name(.))) != name()])", ('3.0', '3.1')),
+    ("count(//*[concat#3(string(exists(*)), '|', name(.)) != concat(string(exists(*)), '|', name())])", ('3.0', '3.1')),
+    ("count(//*[(let $f := concat(string(exists(*)), '|', ?, name(.)) return $f('-')) != concat(string(exists(*)), '|-', name())])",
+     ('3.0', '3.1')),
+    ("count(//*[(string(exists(*)) => concat('|', name(.))) != concat(string(exists(*)), '|', name())])", ('3.1',)),
+    ("count(//*[map{'x': exists(*), 'y': name(.)}?y != name()])", ('3.1',)),
+    ("count(//*[[exists(*), name(.)]?2 != name()])", ('3.1',)),
+    ("count(//*[array{exists(*), name(.)}?2 != name()])", ('3.1',)),
+    ("count(//*[*][not(head(*) is *[1])])", ('3.0', '3.1')),
+    ("count(//*[*][not((*)[1] is *[1]) or (*[1] << .) or not(. << *[1])])", ('2.0', '3.0', '3.1')),
+]
 INVARIANTS = [(e, w, ('1.0', 'compat')) for e, w in _INV1] + [(e, 0, ('2.0', '3.0', '3.1')) for e in _INV2] + [
-    (e, 0, ('3.0', '3.1')) for e in _INV3]
+    (e, 0, ('3.0', '3.1')) for e in _INV3] + [(e, 0, m) for e, m in _INV4]
 
 
 def gen_case(rng, tier):
